@@ -10,6 +10,9 @@ package handlers
 // for users without an authenticator / authorizer / accounter (checked where the loader is
 // under contract; assumed here).
 //@ interface cmds/server/handlers.configProvider.GetUser(c, user) (a)
+//@   ghostinc lookups
+//@   modifies ghost.lookedUp
+//@   ensures ghost.lookedUp == seqof(user)
 //@   ensures a != nil ==> a.Authenticate != nil && a.Authorizer != nil && a.Accounting != nil
 
 //@ func (s *Start) Handle(response tq.Response, request tq.Request)
@@ -20,28 +23,35 @@ package handlers
 //@ func (a *AuthenticateStart) Handle(response tq.Response, request tq.Request)
 //@   implements tq.Handler.Handle
 //@   taints[C18] request.Body 1
+//@   ensures[C10] ghost.authenPass != old(ghost.authenPass) ==> request.Header.Version.MinorVersion == tq.MinorVersionOne
 //@   requires a != nil && a.loggerProvider != nil && a.configProvider != nil && a.recorderWriter != nil
 
 //@ func (a *AuthenticateASCII) Handle(response tq.Response, request tq.Request)
 //@   implements tq.Handler.Handle
 //@   taints[C18] request.Body 1
+//@   ensures[C10] ghost.authenPass == old(ghost.authenPass)
 //@   requires a != nil && a.loggerProvider != nil && a.configProvider != nil && a.recorderWriter != nil
 //@   modifies a.username
 
 //@ func (a *AuthenticateASCII) getUsername(response tq.Response, request tq.Request)
 //@   implements tq.Handler.Handle
 //@   taints[C18] request.Body 1
+//@   ensures[C10] ghost.authenPass == old(ghost.authenPass)
 //@   requires a != nil && a.loggerProvider != nil && a.configProvider != nil && a.recorderWriter != nil
 //@   modifies a.username
 
 //@ func (a *AuthenticateASCII) getPassword(response tq.Response, request tq.Request)
 //@   implements tq.Handler.Handle
 //@   taints[C18] request.Body 2
+//@   ensures[C10] ghost.authenPass != old(ghost.authenPass) ==> ghost.hcalls >= old(ghost.hcalls) + 2
+//@   before[C10] ResponseLogger.Handle : ghost.lookups == old(ghost.lookups) + 1 && ghost.lookedUp == seqof(a.username) && len(body.UserMessage) > 0
 //@   requires a != nil && a.loggerProvider != nil && a.configProvider != nil && a.recorderWriter != nil
 
 //@ func (a *AuthenticatePAP) Handle(response tq.Response, request tq.Request)
 //@   implements tq.Handler.Handle
 //@   taints[C18] request.Body 1
+//@   ensures[C10] ghost.authenPass != old(ghost.authenPass) ==> ghost.hcalls >= old(ghost.hcalls) + 2
+//@   before[C10] ResponseLogger.Handle : ghost.lookups == old(ghost.lookups) + 1 && ghost.lookedUp == seqof(body.User) && len(body.User) > 0 && len(body.Data) > 0
 //@   requires a != nil && a.loggerProvider != nil && a.configProvider != nil && a.recorderWriter != nil
 
 //@ func (a *AuthorizeRequest) Handle(response tq.Response, request tq.Request)
